@@ -62,6 +62,16 @@ Definition compose_class := compose_class_in src_classes src_compose_chain src_c
 
 Definition class_names : list string := map fst src_classes.
 
+(* ---------------------------------------------------------------- Transform.compose on plain callables *)
+(* a generic transform is its function; compose returns a new function (no shared state) *)
+Fixpoint geval {A : Type} (f g : A -> A) (e : gexpr) (x : A) : A :=
+  match e with
+  | GPts => x
+  | GSelf e' => f (geval f g e' x)
+  | GOther e' => g (geval f g e' x)
+  end.
+Definition generic_compose {A : Type} (f g : A -> A) : A -> A := geval f g src_generic_compose.
+
 Section Model.
   Variable R : Type.
   Variables (r0 r1 : R) (radd rmul rsub : R -> R -> R) (ropp : R -> R).
